@@ -19,6 +19,16 @@ def _gate_work(e):
     for tag, r in (('prompt', r0), ('file', rf)):
         if r.exc is None and r.verdict:
             out.append((tag, f'{e["input"]} = {e["value"]} on {e["base"]} ({e["year"]}) solved; on the reference tree it stopped with {e["outcome"]} {e["unimplemented"] or e["message"]}'))
+    if len(base.requested) > 1:
+        # the command line route with several --form arguments
+        import os
+        from hv import cli
+        with cli.workdir() as d:
+            inp = os.path.join(d, 'in.ini')
+            cli.write_inputs(inp, r0.final_inputs)
+            res = cli.solve_cli(e['year'], base.requested, inp)
+        if res['exc'] is None and 'Successfully solved!' in res['stdout']:
+            out.append(('cli', f'`habutax solve` with forms {base.requested}: {e["input"]} = {e["value"]} on {e["base"]} ({e["year"]}) prints "Successfully solved!"'))
     return out, r0.outcome_class()
 
 
